@@ -7,6 +7,7 @@ package main
 
 import (
 	"fmt"
+	"os"
 	"math/big"
 	"sort"
 	"strings"
@@ -373,6 +374,23 @@ func genPred(r *lib.RNG, depth int) string {
 		return "(" + genPred(r, depth-1) + " " + op + " " + genPred(r, depth-1) + ")"
 	}
 	col := lib.Pick(r, engCols)
+	if r.Chance(1, 6) {
+		// a bound together with the NULL point of the same (nullable, indexed) column: ranges of the
+		// "less-or-equal OR NULL" family; the table has rows exactly on the small integer bounds
+		k := lib.Pick(r, []string{"0", "1", "2", "3", "5", "-1", "-3", "2147483646", "2.0", "1.5"})
+		op := lib.Pick(r, []string{"<=", "<", ">=", ">", "="})
+		neg := map[string]string{"<=": ">", "<": ">=", ">=": "<", ">": "<=", "=": "<>"}[op]
+		switch r.Intn(4) {
+		case 0:
+			return fmt.Sprintf("(%s %s %s OR %s IS NULL)", col, op, k, col)
+		case 1:
+			return fmt.Sprintf("(%s IS NULL OR NOT (%s %s %s))", col, col, neg, k)
+		case 2:
+			return fmt.Sprintf("(%s IS NULL OR %s %s %s)", col, col, op, k)
+		default:
+			return fmt.Sprintf("(NOT (%s %s %s) OR %s IS NULL)", col, neg, k, col)
+		}
+	}
 	switch r.Intn(10) {
 	case 0:
 		return col + " IS NULL"
@@ -392,7 +410,7 @@ func genPred(r *lib.RNG, depth int) string {
 		}
 		return fmt.Sprintf("%s %sIN (%s)", col, not, strings.Join(ls, ", "))
 	case 4:
-		return fmt.Sprintf("NOT (%s %s %s)", col, lib.Pick(r, []string{"=", "<", ">"}), lib.Pick(r, engLits))
+		return fmt.Sprintf("NOT (%s %s %s)", col, lib.Pick(r, []string{"=", "<", ">", "<=", ">=", "<>"}), lib.Pick(r, engLits))
 	default:
 		return fmt.Sprintf("%s %s %s", col, lib.Pick(r, []string{"=", "<>", "<", "<=", ">", ">=", "<=>"}), lib.Pick(r, engLits))
 	}
@@ -454,6 +472,15 @@ func main() {
 			"IS [NOT] NULL,NOT(..) and the same literals (+NULL) on an indexed table and an index-free twin with identical 36 rows. " +
 			"Non-trivial: every case; distinct = distinct op lists / WHERE texts.")
 		w := setup()
+		if os.Getenv("C03_DEBUG") != "" {
+			for _, q := range strings.Split(os.Getenv("C03_DEBUG"), ";") {
+				r := w.s.Query("EXPLAIN PLAN SELECT pk, a, b, c FROM ti WHERE " + q)
+				fmt.Println(q, "=>", r.Err)
+				for _, row := range r.Rows {
+					fmt.Println("   ", row[0])
+				}
+			}
+		}
 		run := func(cs caseT) {
 			p, pv := lib.Recover(func() {
 				if cs.Kind == "builder" {
@@ -487,6 +514,10 @@ func main() {
 			{Kind: "engine", Where: "(b = 1 AND c < 2.5) OR b IS NULL"},
 			{Kind: "engine", Where: "a <= 2147483648"},
 			{Kind: "engine", Where: "a NOT IN (1, NULL)"},
+			{Kind: "engine", Where: "a <= 2 OR a IS NULL"},
+			{Kind: "engine", Where: "a IS NULL OR NOT (a > 2)"},
+			{Kind: "engine", Where: "(b <= 3 OR b IS NULL) AND c IS NOT NULL"},
+			{Kind: "engine", Where: "a < 2 OR a IS NULL"},
 		}
 		for _, cs := range corpus {
 			run(cs)
